@@ -265,7 +265,7 @@ def subst_index(t, env: Dict[str, Any]):
         return env.get(t[1], t)
     if k == "perm":
         return iperm(t[1], t[2], subst_index(t[3], env))
-    if k in ("pa", "pb"):
+    if k in ("pa", "pb", "oth"):
         inner = subst_index(t[1], env)
         return STAR if inner == STAR else (k, inner)
     return t
@@ -277,7 +277,7 @@ def index_vars(t, out: set) -> None:
         out.add(t[1])
     elif k == "perm":
         index_vars(t[3], out)
-    elif k in ("pa", "pb"):
+    elif k in ("pa", "pb", "oth"):
         index_vars(t[1], out)
 
 
@@ -289,7 +289,7 @@ def index_str(t) -> str:
         return f"{t[1]}{'^-1' if t[2] else ''}({index_str(t[3])})"
     if k == "c":
         return str(t[1])
-    if k in ("pa", "pb"):
+    if k in ("pa", "pb", "oth"):
         return f"{k}({index_str(t[1])})"
     if k == "ghost":
         return f"ghost#{t[1]}"
@@ -821,3 +821,71 @@ def short(v: Val, depth: int = 0) -> str:
     if isinstance(v, Opaque):
         return f"Opaque({v.tag})"
     return type(v).__name__
+
+
+# ======================================================================================
+# generic transformation of index terms inside values (used by the pair-chunking axiom)
+# ======================================================================================
+
+
+def map_index_term(t, fn):
+    r = fn(t)
+    if r is not None:
+        return r
+    k = t[0]
+    if k == "perm":
+        return iperm(t[1], t[2], map_index_term(t[3], fn))
+    if k in ("pa", "pb", "oth"):
+        inner = map_index_term(t[1], fn)
+        return STAR if inner == STAR else (k, inner)
+    return t
+
+
+def map_sym_indices(s, fn):
+    if s is None:
+        return None
+    k = s[0]
+    if k == "in":
+        return ("in", s[1], s[2], tuple(map_index_term(i, fn) for i in s[3]))
+    if k == "elem":
+        return ("elem", s[1], tuple(map_index_term(i, fn) for i in s[2]), map_index_term(s[3], fn))
+    if k == "idx":
+        return ("idx", map_index_term(s[1], fn))
+    if k == "rd":
+        return ("rd", s[1], tuple(map_index_term(i, fn) for i in s[2]), s[3], s[4])
+    if k == "len":
+        return ("len", s[1], tuple(map_index_term(i, fn) for i in s[2]))
+    if k == "lenterm":
+        return ("lenterm", _map_lenterm(s[1], fn))
+    if k in ("const", "param", "opaque"):
+        return s
+    return (k,) + tuple(map_sym_indices(a, fn) if isinstance(a, tuple) else a for a in s[1:])
+
+
+def _map_lenterm(t, fn):
+    if t is None:
+        return None
+    if t[0] == "len":
+        return ("len", t[1], tuple(map_index_term(i, fn) for i in t[2]))
+    if t[0] in ("add", "pairs", "upairs"):
+        return (t[0], _map_lenterm(t[1], fn)) + tuple(t[2:])
+    return t
+
+
+def map_val_indices(v: Val, fn) -> Val:
+    if isinstance(v, Ptr):
+        return Ptr(v.loc, tuple(map_index_term(i, fn) for i in v.idx))
+    if isinstance(v, (Num, Bool)):
+        return replace(v, sym=map_sym_indices(v.sym, fn)) if v.sym is not None else v
+    if isinstance(v, TupleV):
+        return TupleV(tuple(map_val_indices(x, fn) for x in v.items))
+    if isinstance(v, Seq):
+        return replace(
+            v,
+            length=Length(_map_lenterm(v.length.term, fn), v.length.lo, v.length.hi),
+            elem=map_val_indices(v.elem, fn),
+            fixed=None if v.fixed is None else tuple(map_val_indices(x, fn) for x in v.fixed),
+        )
+    if isinstance(v, Union):
+        return Union(tuple(map_val_indices(x, fn) for x in v.opts))
+    return v
